@@ -317,3 +317,43 @@ fn seg_put_leakcheck() {
     drop(s);
     assert!(conserved(created, 0), "[C04.drop] dropping the cache releases every retained key and value exactly once");
 }
+
+// ------------------------------------------------------------------ ownership with heap-owning values (C04), cheap variant:
+// V = Box<u8>.  Every value is its own heap object, so a value that is dropped twice, or dropped while the caller
+// still holds it (or while it is still reachable through the cache), is a double free / use after free that CBMC
+// reports by itself; no drop counters, and the cache is not dropped (leaks are K-LEAK's business).
+type SegB = SegmentedCache<u8, alloc::boxed::Box<u8>, PoisonHasher, PoisonHasher>;
+
+#[kani::proof]
+#[kani::unwind(6)]
+fn seg_put_boxed_values() {
+    let pb = any_abs(N, 1);
+    let pt = any_abs(N, 1);
+    kani::assume(pb.disjoint(&pt));
+    let mk = |a: &Abs| RawLRU::<u8, alloc::boxed::Box<u8>, DefaultEvictCallback, PoisonHasher>::verif_from_parts(a.cap, PoisonHasher, None, a.n, |i| (a.k[i], alloc::boxed::Box::new(a.v[i])));
+    let mut s: SegB = SegmentedCache::verif_from_parts(mk(&pb), mk(&pt));
+    let k: u8 = kani::any();
+    let v: u8 = kani::any();
+    let protected_entry: bool = kani::any();
+    kani::cover!(pb.has(k) && pt.n == pt.cap, "seg boxed put: promotion overflows protected");
+    kani::cover!(!pb.has(k) && !pt.has(k) && pb.n == pb.cap, "seg boxed put: eviction");
+    let r = if protected_entry { s.put_protected(k, alloc::boxed::Box::new(v)) } else { s.put(k, alloc::boxed::Box::new(v)) };
+    // read what came back, then release it: it must still be alive, and must not be freed a second time
+    let back = match &r {
+        PutResult::Put => None,
+        PutResult::Update(o) => Some(**o),
+        PutResult::Evicted { value, .. } => Some(**value),
+        PutResult::EvictedAndUpdate { update, .. } => Some(**update),
+    };
+    let pre = SegAbs { probationary: pb, protected: pt, probationary_size: pb.cap, protected_size: pt.cap };
+    if let Some(x) = lookup(&[&pb, &pt], k) {
+        assert!(back == Some(x), "[C04.handback][C12.result] the old value handed back by an update is the stored one, still alive");
+    }
+    drop(r);
+    let (post, wf) = s.verif_check();
+    assert!(wf, "[C03.wf] segments well formed with heap-owning values");
+    // every retained value is still readable (a value freed while retained is a use after free here)
+    assert!(lookup(&[&post.probationary, &post.protected], k) == Some(v), "[C04.alive][C02.value] the stored value is alive and is the one just put");
+    let _ = pre;
+    s.verif_forget();
+}
